@@ -278,11 +278,32 @@ class SkelEval(Eval):
         if not self.truth(t[4]):
             return v
 
-        def key(x):
+        def name_key(x):
             if isinstance(x, V) and 'name' in x.fields:
                 n = x.fields['name']
                 return str(n[1] if isinstance(n, tuple) and n and n[0] == 'some' else n)
             return repr(x)
+        key = name_key
+        if t[2] != 'reverse':
+            # the key the source's closure compares by (sort_by_key / dedup_by_key / sort_by(|a, b| k(a).cmp(&k(b))) / dedup_by(|a, b| k(a) == k(b)) /
+            # retain(|x| seen.insert(k(x)))), evaluated on the model elements
+            from rules.c07 import order_key
+            A = ('param', '$key', 'a')
+            kt = order_key(self.ogp, t)
+            if kt is None:
+                raise Unbound(t)
+
+            def key(x, kt=kt):
+                self.params.append({('$key', 'a'): x})
+                try:
+                    k_ = self.ev(kt)
+                finally:
+                    self.params.pop()
+                if isinstance(k_, tuple) and k_ and k_[0] == 'some':
+                    k_ = k_[1]
+                if isinstance(k_, Num):
+                    k_ = k_.value
+                return k_ if isinstance(k_, (int, float, str)) else repr(k_)
         if t[2].startswith('sort'):
             return sorted(v, key=key)
         if t[2] == 'dedup_all_by_key':
